@@ -727,3 +727,101 @@ def family_packages():
         specs.append(RawSpec(files, 'two injectors using equally named providers from two packages both named config (via %s)' % ('provider sets' if use_set else 'functions'),
                              family='packages', extra_pkgs=extra))
     return specs
+
+
+def family_frontend():
+    """F8: front-end plumbing through real syntax: variadic provider and variadic injector, several injectors sharing
+    named sets (object cache), set aliases and a set declared in another package, wire.Build inside panic() and as a
+    plain statement, and non-injector declarations in the injector file that must be copied (C15 zoo: generics,
+    labels, closures, shadowing of err/cleanup, methods, variables, constants, aliased imports, a local variable
+    that collides with a generated import name) and behave like their originals."""
+    specs = []
+    # --- variadic
+    files = {
+        'providers.go': ('package {PKG}\n\nimport "example.com/corpus/vrt"\n\ntype Elem struct{ ID int }\ntype Out struct{ ID int }\n\n'
+                         'func NewSlice() []Elem {\n\tid, _ := vrt.Call(1, false)\n\treturn []Elem{{ID: id}, {ID: id + 1}}\n}\n\n'
+                         'func NewOut(es ...Elem) Out {\n\tvar args []int\n\tfor _, e := range es {\n\t\targs = append(args, e.ID)\n\t}\n\tid, _ := vrt.Call(0, false, args...)\n\treturn Out{ID: id}\n}\n'),
+        'wire.go': ('//go:build wireinject\n// +build wireinject\n\npackage {PKG}\n\nimport "github.com/google/wire"\n\n'
+                    'func Inject() Out {\n\tpanic(wire.Build(NewSlice, NewOut))\n}\n\nfunc InjectV(es ...Elem) Out {\n\twire.Build(NewOut)\n\treturn Out{}\n}\n'),
+        'zz_driver.go': ('//go:build !wireinject\n// +build !wireinject\n\npackage {PKG}\n\nimport "example.com/corpus/vrt"\n\nvar _ func() Out = Inject\nvar _ func(...Elem) Out = InjectV\n\nfunc VDrive() {\n'
+                         '\tspec := &vrt.Spec{}\n\tspec.Nodes = []vrt.Node{\n\t\t{Name: "NewOut", Kind: vrt.KFunc, Params: []vrt.Ref{{Node: 1, Comp: 0}, {Node: 1, Comp: 1}}},\n\t\t{Name: "NewSlice", Kind: vrt.KFunc},\n\t}\n'
+                         '\tspec.Result = []vrt.Ref{{Node: 0}}\n\tspec.ArgIDs = make([][]int, 2)\n\tvrt.Reset()\n\tres := Inject()\n\tvrt.Check(spec, vrt.Outcome{Result: []int{res.ID}, CleanupNil: true})\n'
+                         '\tspec2 := &vrt.Spec{}\n\tspec2.Nodes = []vrt.Node{\n\t\t{Name: "NewOut", Kind: vrt.KFunc, Params: []vrt.Ref{{Node: 1, Comp: 0}, {Node: 1, Comp: 1}, {Node: 1, Comp: 2}}},\n\t\t{Name: "es", Kind: vrt.KArg},\n\t}\n'
+                         '\tspec2.Result = []vrt.Ref{{Node: 0}}\n\ta, b, c := vrt.ArgID("e0"), vrt.ArgID("e1"), vrt.ArgID("e2")\n\tspec2.ArgIDs = [][]int{nil, {a, b, c}}\n\tvrt.Reset()\n'
+                         '\tres2 := InjectV(Elem{ID: a}, Elem{ID: b}, Elem{ID: c})\n\tvrt.Check(spec2, vrt.Outcome{Result: []int{res2.ID}, CleanupNil: true})\n}\n'),
+    }
+    specs.append(RawSpec(files, 'variadic provider fed by a slice source; variadic injector', family='frontend'))
+    # --- shared sets, aliases, set in another package, three injectors
+    files = {
+        'providers.go': ('package {PKG}\n\nimport (\n\t"example.com/corpus/vrt"\n\t"example.com/corpus/{PKG}/dep"\n)\n\ntype App struct{ ID int }\ntype Job struct{ ID int }\n\n'
+                         'func NewApp(d dep.DB, c dep.Cfg) App {\n\tid, _ := vrt.Call(0, false, d.ID, c.ID)\n\treturn App{ID: id}\n}\n\n'
+                         'func NewJob(d dep.DB) (Job, func()) {\n\tid, _ := vrt.Call(3, false, d.ID)\n\treturn Job{ID: id}, vrt.CleanupFn(3)\n}\n'),
+        'wire.go': ('//go:build wireinject\n// +build wireinject\n\npackage {PKG}\n\nimport (\n\t"github.com/google/wire"\n\t"example.com/corpus/{PKG}/dep"\n)\n\n'
+                    'var Base = wire.NewSet(dep.Set)\nvar Alias = Base\n\n'
+                    '// InjectApp builds an App.\nfunc InjectApp() (App, func()) {\n\tpanic(wire.Build(Alias, NewApp))\n}\n\n'
+                    'func InjectJob() (Job, func()) {\n\twire.Build(Base, NewJob)\n\treturn Job{}, nil\n}\n\n'
+                    'func InjectCfg(c dep.Cfg) App {\n\twire.Build(dep.NewDBPlain, NewApp)\n\treturn App{}\n}\n'),
+        'zz_driver.go': ('//go:build !wireinject\n// +build !wireinject\n\npackage {PKG}\n\nimport "example.com/corpus/vrt"\n\nfunc VDrive() {\n'
+                         '\tnodes := []vrt.Node{\n\t\t{Name: "NewApp", Kind: vrt.KFunc, Params: []vrt.Ref{{Node: 1}, {Node: 2}}},\n\t\t{Name: "dep.NewDB", Kind: vrt.KFunc, HasCleanup: true, Params: []vrt.Ref{{Node: 2}}},\n'
+                         '\t\t{Name: "dep.NewCfg", Kind: vrt.KFunc},\n\t\t{Name: "NewJob", Kind: vrt.KFunc, HasCleanup: true, Params: []vrt.Ref{{Node: 1}}},\n\t\t{Name: "dep.NewDBPlain", Kind: vrt.KFunc},\n\t\t{Name: "c", Kind: vrt.KArg},\n\t}\n'
+                         '\t{\n\t\tspec := &vrt.Spec{Nodes: nodes, Result: []vrt.Ref{{Node: 0}}, RetCleanup: true, ArgIDs: make([][]int, 6)}\n\t\tvrt.Reset()\n\t\tres, cl := InjectApp()\n\t\tvrt.Check(spec, vrt.Outcome{Result: []int{res.ID}, Cleanup: cl, CleanupNil: cl == nil})\n\t}\n'
+                         '\t{\n\t\tspec := &vrt.Spec{Nodes: nodes, Result: []vrt.Ref{{Node: 3}}, RetCleanup: true, ArgIDs: make([][]int, 6)}\n\t\tvrt.Reset()\n\t\tres, cl := InjectJob()\n\t\tvrt.Check(spec, vrt.Outcome{Result: []int{res.ID}, Cleanup: cl, CleanupNil: cl == nil})\n\t}\n'
+                         '\t{\n\t\tn2 := append([]vrt.Node(nil), nodes...)\n\t\tn2[0] = vrt.Node{Name: "NewApp", Kind: vrt.KFunc, Params: []vrt.Ref{{Node: 4}, {Node: 5}}}\n\t\tcid := vrt.ArgID("cfg")\n'
+                         '\t\tspec := &vrt.Spec{Nodes: n2, Result: []vrt.Ref{{Node: 0}}, ArgIDs: [][]int{nil, nil, nil, nil, nil, {cid}}}\n\t\tvrt.Reset()\n\t\tres := InjectCfg(depCfg(cid))\n\t\tvrt.Check(spec, vrt.Outcome{Result: []int{res.ID}, CleanupNil: true})\n\t}\n}\n'),
+        'helpers.go': 'package {PKG}\n\nimport "example.com/corpus/{PKG}/dep"\n\nfunc depCfg(id int) dep.Cfg { return dep.Cfg{ID: id} }\n',
+    }
+    extra = {'dep': {'dep.go': ('package dep\n\nimport (\n\t"example.com/corpus/vrt"\n\t"github.com/google/wire"\n)\n\ntype DB struct{ ID int }\ntype Cfg struct{ ID int }\n\n'
+                                'func NewCfg() Cfg {\n\tid, _ := vrt.Call(2, false)\n\treturn Cfg{ID: id}\n}\n\nfunc NewDB(c Cfg) (DB, func()) {\n\tid, _ := vrt.Call(1, false, c.ID)\n\treturn DB{ID: id}, vrt.CleanupFn(1)\n}\n\n'
+                                'func NewDBPlain() DB {\n\tid, _ := vrt.Call(4, false)\n\treturn DB{ID: id}\n}\n\nvar Inner = wire.NewSet(NewCfg)\nvar Set = wire.NewSet(Inner, NewDB)\n')}}
+    specs.append(RawSpec(files, 'three injectors sharing named sets: alias of a set, set of another package nesting a set, Build in panic() and as statement', family='frontend', extra_pkgs=extra))
+    # --- C15 zoo: declarations in the injector file must be copied and behave like their originals
+    zoo = (
+        'type Pair[T any] struct{ A, B T }\n\nfunc (p Pair[T]) First() T { return p.A }\n\n'
+        'func Map[T, U any](xs []T, f func(T) U) []U {\n\tvar out []U\n\tfor _, x := range xs {\n\t\tout = append(out, f(x))\n\t}\n\treturn out\n}\n\n'
+        'func PairOf[A, B any](a A, b B) Pair2[A, B] { return Pair2[A, B]{a, b} }\n\ntype Pair2[A, B any] struct {\n\tL A\n\tR B\n}\n\n'
+        'func Sum(xs ...int) int {\n\ttotal := 0\n\tfor _, x := range xs {\n\t\ttotal += x\n\t}\n\treturn total\n}\n\n'
+        'func Classify(x int) int {\n\tswitch {\n\tcase x < 0:\n\t\treturn -1\n\tcase x == 0:\n\t\treturn 0\n\t}\n\treturn 1\n}\n\n'
+        'func Loop(n int) int {\n\tacc := 0\nouter:\n\tfor i := 0; i < 3; i++ {\n\t\tfor j := 0; j < 3; j++ {\n\t\t\tif j == n {\n\t\t\t\tcontinue outer\n\t\t\t}\n\t\t\tif i == n {\n\t\t\t\tbreak outer\n\t\t\t}\n\t\t\tacc += i*3 + j\n\t\t}\n\t}\n\treturn acc\n}\n\n'
+        'func Closure(x int) int {\n\tadd := func(y int) int { return x + y }\n\treturn add(2)\n}\n\n'
+        'func Shadow(err int) int {\n\tcleanup := err + 1\n\t{\n\t\terr := cleanup * 2\n\t\tcleanup = err\n\t}\n\tdep := cleanup + 1\n\tvrt := dep * 2\n\treturn vrt + err\n}\n\n'
+        'var Table = map[string]int{"a": 1, "b": 2}\n\nconst K = 7\n\ntype Meth struct {\n\tV int `json:"v"`\n}\n\nfunc (m *Meth) Get() int { return m.V + K }\n\n'
+        'func Upper(s string) string { return str.ToUpper(s) }\n\n'
+        'func TypeSwitch(v interface{}) int {\n\tswitch t := v.(type) {\n\tcase int:\n\t\treturn t\n\tcase string:\n\t\treturn len(t)\n\tdefault:\n\t\treturn -1\n\t}\n}\n\n'
+        'func Defer(x int) (r int) {\n\tdefer func() { r += x }()\n\treturn x * 2\n}\n\n'
+        'func Select(x int) int {\n\tch := make(chan int, 1)\n\tch <- x\n\tselect {\n\tcase v := <-ch:\n\t\treturn v + 1\n\tdefault:\n\t\treturn 0\n\t}\n}\n\n'
+        'func Goto(x int) int {\n\ti := 0\nagain:\n\tif i < x && i < 5 {\n\t\ti++\n\t\tgoto again\n\t}\n\treturn i\n}\n')
+    def twin(src):
+        out = src
+        for name in ['Pair2', 'PairOf', 'Pair', 'Map', 'Sum', 'Classify', 'Loop', 'Closure', 'Shadow', 'Table', 'Meth', 'Upper', 'TypeSwitch', 'Defer', 'Select', 'Goto']:
+            out = re.sub(r'\b%s\b' % name, name + 'Orig', out)
+        out = re.sub(r'\bK\b', 'KOrig', out)
+        return out
+    files = {
+        'providers.go': ('package {PKG}\n\nimport (\n\t"example.com/corpus/vrt"\n\t"example.com/corpus/{PKG}/dep"\n)\n\ntype App struct{ ID int }\n\n'
+                         'func NewApp(d dep.DB) App {\n\tid, _ := vrt.Call(0, false, d.ID)\n\treturn App{ID: id}\n}\n'),
+        'orig.go': 'package {PKG}\n\nimport str "strings"\n\n' + twin(zoo).replace('vrt := dep * 2\n\treturn vrt + err', 'vv := dep * 2\n\treturn vv + err'),
+        'wire.go': ('//go:build wireinject\n// +build wireinject\n\npackage {PKG}\n\nimport (\n\tstr "strings"\n\n\t"github.com/google/wire"\n\t"example.com/corpus/{PKG}/dep"\n)\n\n'
+                    'func Inject() App {\n\tpanic(wire.Build(dep.NewDB, NewApp))\n}\n\n' + zoo),
+        'zz_driver.go': ('//go:build !wireinject\n// +build !wireinject\n\npackage {PKG}\n\nimport "example.com/corpus/vrt"\n\nfunc VDrive() {\n'
+                         '\tx := vrt.ArgID("x") - 500\n\ty := vrt.ArgID("y") - 3\n'
+                         '\tvrt.A("C15", Classify(x) == ClassifyOrig(x), "copied Classify behaves like the original")\n'
+                         '\tvrt.A("C15", Loop(y) == LoopOrig(y), "copied Loop (labels) behaves like the original")\n'
+                         '\tvrt.A("C15", Closure(x) == ClosureOrig(x), "copied Closure behaves like the original")\n'
+                         '\tvrt.A("C15,C14", Shadow(x) == ShadowOrig(x), "copied Shadow (locals named err, cleanup, dep, vrt) behaves like the original")\n'
+                         '\tvrt.A("C15", Sum(x, y, 3) == SumOrig(x, y, 3), "copied variadic Sum behaves like the original")\n'
+                         '\tvrt.A("C15", Defer(x) == DeferOrig(x), "copied Defer behaves like the original")\n'
+                         '\tvrt.A("C15", Select(x) == SelectOrig(x), "copied Select behaves like the original")\n'
+                         '\tvrt.A("C15", Goto(y) == GotoOrig(y), "copied Goto behaves like the original")\n'
+                         '\tvrt.A("C15", TypeSwitch(x) == TypeSwitchOrig(x) && TypeSwitch("ab") == TypeSwitchOrig("ab") && TypeSwitch(1.5) == -1, "copied TypeSwitch behaves like the original")\n'
+                         '\tm, mo := &Meth{V: x}, &MethOrig{V: x}\n\tvrt.A("C15", m.Get() == mo.Get() && K == KOrig, "copied method and constant behave like the originals")\n'
+                         '\tvrt.A("C15", Table["b"] == TableOrig["b"] && len(Table) == len(TableOrig), "copied variable has the original value")\n'
+                         '\tp := Pair[int]{A: x, B: y}\n\tvrt.A("C15", p.First() == x, "copied generic type keeps its type parameters")\n'
+                         '\tq := PairOf[int, string](x, "s")\n\tvrt.A("C15", q.L == x && q.R == "s", "copied generic function with two type parameters (index list) works")\n'
+                         '\tds := Map([]int{x, y}, func(v int) int { return v + 1 })\n\tvrt.A("C15", len(ds) == 2 && ds[0] == x+1 && ds[1] == y+1, "copied generic function behaves like the original")\n'
+                         '\tvrt.A("C15", Upper("ab") == "AB", "copied function using an aliased import works")\n'
+                         '\tvrt.Reset()\n\tspec := &vrt.Spec{Nodes: []vrt.Node{{Name: "NewApp", Kind: vrt.KFunc, Params: []vrt.Ref{{Node: 1}}}, {Name: "dep.NewDB", Kind: vrt.KFunc}}, Result: []vrt.Ref{{Node: 0}}, ArgIDs: make([][]int, 2)}\n'
+                         '\tres := Inject()\n\tvrt.Check(spec, vrt.Outcome{Result: []int{res.ID}, CleanupNil: true})\n\tvrt.Cover("zoo-checked")\n}\n'),
+    }
+    extra = {'dep': {'dep.go': 'package dep\n\nimport "example.com/corpus/vrt"\n\ntype DB struct{ ID int }\n\nfunc NewDB() DB {\n\tid, _ := vrt.Call(1, false)\n\treturn DB{ID: id}\n}\n'}}
+    specs.append(RawSpec(files, 'declarations next to an injector are copied and behave like their originals (generics, labels, closures, shadowing, methods, aliased import, colliding local names)', family='frontend', extra_pkgs=extra))
+    return specs
